@@ -23,7 +23,51 @@ def nontrivial(src, out):
     return "clip-path" in src
 
 
-P = RenderProp(features, "stack", n_quick=110, n_thorough=700, nontrivial=nontrivial)
+def special(rng):
+    """a clipPath that carries a transform AND is itself clipped: whether the transform also moves the referenced clip is
+    read differently by renderers (DESIGN §9.3), so these documents are not given a rendering verdict — they take part in
+    the correspondence with the Lean model, which pins what the code does today"""
+    k0 = rng.random()
+    if k0 < 0.08:
+        # clip-rule is an inherited property: set on an ancestor of the clipPath (the root, a group around it) it holds for
+        # the clipPath's children, whether or not they repeat it
+        star = "M50,5 L21,90 L98,35 L2,35 L79,90 Z"
+        where = rng.choice(["root", "group", "both"])
+        child_rule = rng.choice(["", "", ' clip-rule="evenodd"', ' clip-rule="nonzero"'])
+        cp = '<clipPath id="c"><path d="%s"%s/></clipPath>' % (star, child_rule)
+        if where in ("group", "both"):
+            cp = '<g clip-rule="evenodd">%s</g>' % cp
+        root = ' clip-rule="evenodd"' if where in ("root", "both") else ""
+        return ('<svg xmlns="http://www.w3.org/2000/svg" viewBox="0 0 100 100"%s>%s<rect width="100" height="100" fill="blue" clip-path="url(#c)"/></svg>'
+                % (root, cp), [(50, 50), (50, 45), (50, 20), (30, 60), (70, 60), (50, 70)])
+    if k0 < 0.16:
+        # a clip region that is empty: children that enclose no area, or a clipPath clipped by one it does not overlap —
+        # the clipped content is gone (SVG: "an empty clipping path ... completely clips away the element")
+        empty = rng.choice(['<line x1="5" y1="5" x2="90" y2="80"/>', '<rect x="10" y="10" width="0" height="50"/>', '<path d="M20,20"/>',
+                            '<path d="M10,10 L80,10"/>', "NESTED"])
+        if empty == "NESTED":
+            defs = ('<clipPath id="a"><rect x="60" y="60" width="30" height="30"/></clipPath>'
+                    '<clipPath id="c" clip-path="url(#a)"><rect x="5" y="5" width="40" height="40"/></clipPath>')
+        else:
+            defs = '<clipPath id="c">%s</clipPath>' % empty
+        target = rng.choice(['<rect x="5" y="5" width="85" height="85" fill="blue" clip-path="url(#c)"/>',
+                             '<g clip-path="url(#c)"><rect x="5" y="5" width="50" height="50" fill="blue"/><circle cx="60" cy="60" r="25" fill="red"/></g>'])
+        return ('<svg xmlns="http://www.w3.org/2000/svg" viewBox="0 0 100 100"><defs>%s</defs>%s<rect x="70" y="5" width="20" height="10" fill="lime"/></svg>' % (defs, target),
+                [(20, 20), (30, 40), (60, 60), (75, 75), (50, 50)])
+    if k0 > 0.24:
+        return None
+    tr = rng.choice(["translate(15 10)", "scale(0.8)", "rotate(20 40 40)", "translate(5 5) scale(1.2)"])
+    inner_tr = rng.choice(["", ' transform="translate(8 0)"'])
+    src = ('<svg xmlns="http://www.w3.org/2000/svg" viewBox="0 0 100 100"><defs>'
+           '<clipPath id="a"%s><rect x="%d" y="%d" width="%d" height="%d"/></clipPath>'
+           '<clipPath id="b" transform="%s" clip-path="url(#a)"><circle cx="%d" cy="%d" r="%d"/></clipPath></defs>'
+           '<rect x="5" y="5" width="85" height="85" fill="blue" clip-path="url(#b)"/></svg>'
+           % (inner_tr, rng.randint(10, 30), rng.randint(10, 30), rng.randint(30, 50), rng.randint(30, 50), tr,
+              rng.randint(35, 55), rng.randint(35, 55), rng.randint(20, 35)))
+    return {"src": src, "nojudge": True}
+
+
+P = RenderProp(features, "stack", n_quick=110, n_thorough=700, nontrivial=nontrivial, special=special)
 correspondence = P.correspondence
 replay = P.replay
 
